@@ -48,7 +48,8 @@ def cases(ctx):
             g, f = rng.uniform(0, 1, ng).astype(np.float32), rng.uniform(0, 1, nf).astype(np.float32)
         bad = None
         if rng.random() < 0.35:
-            bad = {"value": float(rng.choice([-0.01, 1.01, 2.0, -1e-12, one_up, -5e-324, -1.0, 1e9])), "where": str(rng.choice(["g", "f"]))}
+            bad = {"value": float(rng.choice([-0.01, 1.01, 2.0, -1e-12, one_up, -5e-324, -1.0, 1e9, 0.0, 1.0, 0.5])), "where": str(rng.choice(["g", "f"])),
+                   "with_nan": bool(rng.random() < 0.35), "front": bool(rng.random() < 0.5)}
         ep, en = gen.easy(rng)
         yield {"g": g, "f": f, "ep": ep, "en": en, "scl": str(rng.choice(["genuine", "fraud"])), "kind": kind, "bad": bad,
                "u": rng.uniform(0, 1, 8), "_seed": int(rng.integers(1 << 31))}
@@ -72,8 +73,12 @@ def execute(ctx, case):
     C(doc_to_binary_label("genuine") == BinaryLabel.pos and doc_to_binary_label("fraud") == BinaryLabel.neg, "genuine/fraud do not translate to pos/neg", "fraud-label-map")
     if case["bad"] is not None:
         v = case["bad"]["value"]
-        gg = np.append(np.asarray(g, dtype=float), v) if case["bad"]["where"] == "g" else g
-        ff = np.append(np.asarray(f, dtype=float), v) if case["bad"]["where"] == "f" else f
+        extra = [v, float("nan")] if case["bad"].get("with_nan") else [v]  # a NaN next to the injected value must not blind the check
+        if case["bad"].get("front"):
+            extra = extra[::-1]
+        inj = lambda a: np.concatenate([extra, np.asarray(a, dtype=float)]) if case["bad"].get("front") else np.concatenate([np.asarray(a, dtype=float), extra])  # noqa: E731
+        gg = inj(g) if case["bad"]["where"] == "g" else g
+        ff = inj(f) if case["bad"]["where"] == "f" else f
         out_of_range = v < 0 or v > 1
         try:
             FraudScores(genuines=gg, frauds=ff, nb_easy_genuines=ep, nb_easy_frauds=en, score_class=scl)
